@@ -94,4 +94,11 @@ theorem simd_consts :
     (∀ b, b < 256 → (decide (toInt8 b < toInt8 sbCtrlLtSse) && decide (toInt8 b > toInt8 sbCtrlGtSse)) = decide (b ≤ sbCtrlMaxAvx2)) := by
   refine ⟨by decide +kernel, by decide +kernel, rfl, rfl, by decide +kernel, rfl, rfl, by decide +kernel⟩
 
+/-- C17/C13: the complete list of mutable `static` / `thread_local` variables declared in the library headers (extracted from the source
+    on every run).  The only one is the function-local null node returned by `findValueImpl` for a missing key, which is written only when
+    it is not null (fix F.. of C17, covered by the `thr-ro` runs).  Any additional shared mutable object - a scratch buffer made `static`,
+    a cache, a counter - is a new way for independent documents and threads to interact and breaks this obligation before a race has to be
+    caught in the act. -/
+theorem shared_state_consts : mutableStatics = ["dom/dynamicnode.h:DNode tmp"] := rfl
+
 end Sonic.Props.Consts
